@@ -20,7 +20,6 @@ from harness import strict_tlv as T
 
 from ndn import appv2, app as app1, types as ndn_types
 from ndn.transport.face import Face
-from ndn.transport.nfd_registerer import NfdRegister
 
 logging.getLogger('ndn').setLevel(100)   # also keeps LogRecord creation (a time.time() call) out of the scripted clock
 
@@ -300,11 +299,18 @@ class Scenario:
         self.reads = 0
         _time.time = self._now            # Session.__exit__ restores the real function
         self.face = RegFace()
+        # Two applications live in the process, each with its own face, both built the DEFAULT way (appv2: no
+        # registerer argument, so client_conf.default_registerer() is used). The second one is a bystander: it is
+        # connected together with the first and never asked to do anything - every command of the application under
+        # test must go out on its OWN face, the bystander's face must stay silent.
+        self.face2 = RegFace()
         if front == 'v2':
-            self.reg = NfdRegister()
-            self.app = _V2App(face=self.face, client_conf={'transport': 'unix:///nonexistent'}, registerer=self.reg)
+            self.app = _V2App(face=self.face, client_conf={'transport': 'unix:///nonexistent'})
+            self.app2 = _V2App(face=self.face2, client_conf={'transport': 'unix:///nonexistent'})
+            self.reg = self.app.registerer
         else:
             self.app = app1.NDNApp(face=self.face, keychain=_Keychain())
+            self.app2 = app1.NDNApp(face=self.face2, keychain=_Keychain())
         self.ncalls = ncalls
         self.tasks = {}                   # call id -> task
         self.res = {}
@@ -322,8 +328,9 @@ class Scenario:
 
     def close(self):
         try:
-            if self.face.running:
+            if self.face.running or self.face2.running:
                 self.face.shutdown()
+                self.face2.shutdown()
                 self.sess.loop.settle()
         finally:
             self.sess.__exit__(None, None, None)
@@ -350,6 +357,10 @@ class Scenario:
         self._scan()
 
     def _scan(self):
+        if self.face2.out:
+            self.wire_errors.append(('foreign-face', 'packet(s) of the application under test were sent on the face of '
+                                     'another application of the process', self.face2.out[0].hex()))
+            del self.face2.out[:]
         while self.seen < len(self.face.out):
             w = self.face.out[self.seen]
             self.seen += 1
@@ -368,11 +379,18 @@ class Scenario:
                 await self.app.main_loop()
             except BaseException as e:  # noqa
                 self.main_errors.append(type(e).__name__)
+        async def run_other():
+            try:
+                await self.app2.main_loop()
+            except BaseException as e:  # noqa
+                self.main_errors.append('bystander:' + type(e).__name__)
         self.main = self.sess.spawn(run_main())
+        self.main2 = self.sess.spawn(run_other())
         self._run(d)
 
     def disconnect(self):
         self.face.shutdown()
+        self.face2.shutdown()
         self._run(0)
 
     def call(self, c, verb, prefix, with_func=False, d=0):
